@@ -82,6 +82,8 @@ func C13(p *load.Prog, r *oblig.Run) {
 	r.NotDecided = "equality of each view with a fresh decode as values; that an invalidation happens on every path and under the right condition (may, not must); value/tag/pointer edits (SetValue-style) against caches; purity of html.Publisher.Publish (too large for the interpreter's budget; its node-state writes are covered by R19.e's region analysis instead)."
 	r.Assumptions = e4Assumptions()
 	r.Rule("R13.a", "read-only operations perform no structural write on the document or nodes they are given", 150)
+	r.Rule("R13.c", "all fills of the document's pointer index use the same store operation (they agree on which record wins a duplicated pointer)", 1)
+	c13PointerFills(p, r)
 	r.Rule("R13.b", "every writer of a membership field invalidates every cache derived from that field: it can reach an invalidation, and one is executed whenever the store is", 8)
 	g := cg.New(p, false)
 	explicit, accessors := readOnlyRoots(p, g)
@@ -214,9 +216,20 @@ func c13Pairing(p *load.Prog, r *oblig.Run, g *cg.Graph) {
 							}
 						case *ssa.UnOp:
 							if gl, ok := a.X.(*ssa.Global); ok && gl == nodeCache {
-								// storing an entry is a fill, not an invalidation: only Delete counts
-								if su.CalleeIs(cc, "sync", "Delete") {
-									f.cacheStores["var nodeCache"] = true
+								// storing an entry is a fill, not an invalidation: only Delete counts - and only with a
+								// key of the kind the fills use (the node as a Node interface). A key built from a
+								// concrete *SimpleNode never equals the entry of a typed node, which is keyed by the
+								// outer *ResidenceNode, *EventNode, ...
+								if su.CalleeIs(cc, "sync", "Delete") && len(cc.Args) > 1 {
+									concrete := false
+									if mi, isMI := cc.Args[1].(*ssa.MakeInterface); isMI {
+										if _, isIface := mi.X.Type().Underlying().(*types.Interface); !isIface {
+											concrete = true
+										}
+									}
+									if !concrete {
+										f.cacheStores["var nodeCache"] = true
+									}
 								}
 							}
 						}
@@ -346,7 +359,12 @@ func c13Pairing(p *load.Prog, r *oblig.Run, g *cg.Graph) {
 									return true
 								}
 							case *ssa.UnOp:
-								if gl, ok := a.X.(*ssa.Global); ok && gl == nodeCache && c == "var nodeCache" && su.CalleeIs(cc, "sync", "Delete") {
+								if gl, ok := a.X.(*ssa.Global); ok && gl == nodeCache && c == "var nodeCache" && su.CalleeIs(cc, "sync", "Delete") && len(cc.Args) > 1 {
+									if mi, isMI := cc.Args[1].(*ssa.MakeInterface); isMI {
+										if _, isIface := mi.X.Type().Underlying().(*types.Interface); !isIface {
+											return false
+										}
+									}
 									return true
 								}
 							}
@@ -522,4 +540,50 @@ func invalidationOnEveryPath(w *ssa.Function, c string, calleeInvalidates func(*
 		}
 	}
 	return ""
+}
+
+// c13PointerFills (R13.c): the full rebuild and the incremental update of Document.pointerCache must agree.
+func c13PointerFills(p *load.Prog, r *oblig.Run) {
+	o := r.Add("R13.c", "store operations on Document.pointerCache", "-", "how the pointer index is filled")
+	ops := map[string][]string{}
+	for _, fn := range p.Repo {
+		if pkgPathOf(fn) != load.PkgRoot {
+			continue
+		}
+		for _, c := range su.Calls(fn) {
+			cc := c.Common()
+			if !(su.CalleeIs(cc, "sync", "Store") || su.CalleeIs(cc, "sync", "LoadOrStore") || su.CalleeIs(cc, "sync", "Swap")) || len(cc.Args) == 0 {
+				continue
+			}
+			fa, ok := cc.Args[0].(*ssa.FieldAddr)
+			if !ok {
+				if ld, isLd := cc.Args[0].(*ssa.UnOp); isLd {
+					fa, ok = ld.X.(*ssa.FieldAddr)
+				}
+			}
+			if !ok || su.FieldName(fa) != "pointerCache" {
+				continue
+			}
+			name := cc.StaticCallee().Name()
+			ops[name] = append(ops[name], load.FuncName(fn))
+		}
+	}
+	var names []string
+	for n := range ops {
+		names = append(names, n)
+	}
+	sort.Strings(names)
+	switch len(names) {
+	case 0:
+		o.Unknown("no store into Document.pointerCache found")
+	case 1:
+		o.OK(fmt.Sprintf("all fills use %s (%d site(s))", names[0], len(ops[names[0]])))
+	default:
+		var parts []string
+		for _, n := range names {
+			sort.Strings(ops[n])
+			parts = append(parts, n+" in "+strings.Join(ops[n], ", "))
+		}
+		o.Fail("the fills of the pointer index use different store operations (" + strings.Join(parts, "; ") + "): for a pointer used by two records one fill keeps the first record and the other the last, so NodeByPointer answers differently after a rebuild (DeleteNode, SetNodes) than after the incremental adds - and differently from a fresh decode")
+	}
 }
